@@ -24,7 +24,7 @@ import sigtree as st
 from common import frac_str, run_driver
 
 TRUSTED = [
-    'Lean 4.33.0 kernel; axioms of every theorem in Props/C17.lean within {propext, Classical.choice, Quot.sound}',
+    'Lean 4.33.0 kernel; axioms of every theorem in Props/C17*.lean within {propext, Classical.choice, Quot.sound}',
     'harness/props/c17.py (recorder wrapped around is_feasible, identification of returned arrays with examined candidates by object identity)',
     'ECOS (only to produce solved dual relaxations; statuses other than solved are skipped)',
 ]
